@@ -347,6 +347,63 @@ def ui_subitem(a: int, b: int, c: int, f: bool, g: bool, p: bytes, s: bytes, ule
 
 
 # ---------------------------------------------------------------------------------------------
+# 3b. long variable fields: the 16-bit length fields at their sign / width boundaries
+# ---------------------------------------------------------------------------------------------
+BIG_LENS = tier([32761, 32762, 65000], [127, 128, 255, 256, 32761, 32762, 32763, 32767, 32768, 65000, 65521])
+
+
+@harness(
+    "C01", timeout=(120, 600),
+    shards=[{"big": n, "which": w} for n in BIG_LENS for w in ("uid_rq", "uid_ac")],
+    functions=["pdu_items:UserIdentitySubItemRQ.*", "pdu_items:UserIdentitySubItemAC.*", "pdu_items:UserInformationItem.*",
+               "pdu_items:PDUItem._generate_items", "pdu_items:PDUItem.decode"],
+    bounds="User Identity RQ primary field / AC server response of a LONG concrete length L (shard; quick: item lengths just "
+           "below / at 2^15 and near 2^16; thorough: also 2^7, 2^8 boundaries) whose first byte and the small fields (type, "
+           "positive-response flag, 0..1 byte secondary field) are solver-symbolic; as a sub-item on its own and inside a "
+           "User Information item next to Maximum Length and Implementation Class UID (so that the parent's item walk reads "
+           "its 16-bit length)",
+    stubs=["the long field is one symbolic byte followed by L-1 concrete bytes"],
+    outside="other long fields (P-DATA values use a 32-bit length: pdata harness)",
+)
+def ui_big_fields(b: int, f: bool, head: int, s: bytes) -> bool:
+    """
+    pre: 1 <= b <= 5 and 0 <= head <= 255
+    pre: len(s) <= 1
+    pre: b != 2 or len(s) == 1
+    post: _ == True
+    """
+    big, which = shard("big", 32762), shard("which", "uid_rq")
+    with untraced():
+        # same item length for both kinds: the RQ sub-item has 6 bytes of fixed fields, the AC sub-item 2
+        tail = bytes([65]) * ((big if which == "uid_rq" else big + 4) - 1)
+    pfield = bytes([head]) + tail
+    if which == "uid_rq":
+        prim, value, cls = make_ui("uid_rq", 0, b, 0, f, False, pfield, fixlen(s), ULENS[0], ALENS[0], 0)
+    else:
+        prim, value, cls = make_ui("uid_ac", 0, 0, 0, False, False, pfield, b"", ULENS[0], ALENS[0], 0)
+    item = prim.from_primitive()
+    if type(item) is not cls or not check_item(item, value, cls):
+        return False
+    back = cls()
+    back.decode(item.encode())
+    if not (back.to_primitive() == prim):
+        return False
+    # inside its parent: the User Information item walks its sub-items by their 16-bit length fields
+    mprim, mvalue, _ = make_ui("maxlen", 16382, 0, 0, False, False, b"", b"", ULENS[0], ALENS[0], 0)
+    iprim, ivalue, _ = make_ui("impl_uid", 0, 0, 0, False, False, b"", b"", ULENS[0], ALENS[0], 0)
+    ui = I.UserInformationItem()
+    ui.user_data = [mprim.from_primitive(), iprim.from_primitive(), item]
+    enc = ui.encode()
+    if not eq_bytes(enc, L.encode_item(("ui", [mvalue, ivalue, value]))):
+        return False
+    q = I.UserInformationItem()
+    q.decode(enc)
+    if not (q == ui) or len(q.user_data) != 3:
+        return False
+    return eq_bytes(q.encode(), enc)
+
+
+# ---------------------------------------------------------------------------------------------
 # 4. application context / abstract syntax / transfer syntax / presentation context items
 # ---------------------------------------------------------------------------------------------
 def make_pcrq(cid, ulen, nts):
